@@ -519,6 +519,12 @@ class IrToPythonCompiler:
         if op in int_ops and ins.ty.is_integer:
             fname = int_ops[op]
             self.emit(f"{ins.name} = {fname}({a}, {b})")
+            if op == "/" and ins.ty.signed:
+                # The quotient of the smallest integer and -1 does not fit
+                limit = 1 << (ins.ty.bits - 1)
+                self.emit(f"if {ins.name} == {limit}:")
+                with self.indented():
+                    self.emit('raise OverflowError("integer overflow")')
         elif op in shift_ops and ins.ty.is_integer:
             fname = shift_ops[op]
             self.emit(f"{ins.name} = {fname}({a}, {b}, {ins.ty.bits})")
